@@ -8,6 +8,8 @@ from rules.common import *
 import flow, panics, slices
 
 A = []
+# backing rules that decide the loop's termination semantically on every run: such an entry needs no frozen slice
+DECIDED_BY_MODEL = {'C09.5'}
 
 
 def a(rx, variant, backing=None):
@@ -21,9 +23,9 @@ a(r'minidump::context::print_generic_context\|loop', 'for-loop over CpuRegisters
 a(r'minidump::minidump::MinidumpMiscInfo::print\|loop\|\(discr \(<minidump_common::format::XstateFeatureIter', 'for-loop over XstateFeatureIter, whose next() strictly increases self.idx on every call and returns None once idx reaches features.len() (= 64)')
 a(r'XstateFeatureIter<\'_> as std::iter::Iterator>::next\|loop', 'while self.idx < features.len(): self.idx += 1 on every iteration')
 a(r'breakpad_symbols::http::fetch_lookup::\{closure#0\}\|loop', 'awaits res.chunk() until the HTTP body ends (Ok(None)) or a chunk / write fails; termination is the response stream\'s (trusted: reqwest), every iteration consumes one chunk')
-a(r'sym_file::parser::SymbolParser::parse_more\|loop', 'every `continue` first advances `input` past at least one byte of a parsed line (nom consumed it) or clears cur_item (which can happen once per item); the loop ends when input is empty', 'C09.2')
-a(r'SymbolFile>::parse\|loop', 'lexicographic: (bytes the reader can still deliver, bytes in the buffer, tried_to_grow / in_panic_recovery flags): an iteration reads >= 1 byte, or consumes >= 1 byte, or flips one of the monotone flags, or returns', 'C09.2')
-a(r'SymbolFile>::parse_async::\{closure#0\}\|loop', 'same state machine as parse (C10.3 twin rule); chunks come from the HTTP response stream', 'C09.2')
+a(r'sym_file::parser::SymbolParser::parse_more\|loop', 'every `continue` first advances `input` past at least one byte of a parsed line (nom consumed it) or clears cur_item (which can happen once per item); the loop ends when input is empty')
+a(r'SymbolFile>::parse\|loop', 'lexicographic: (bytes the reader can still deliver, bytes in the buffer, tried_to_grow / in_panic_recovery flags): an iteration reads >= 1 byte, or consumes >= 1 byte, or flips one of the monotone flags, or returns. Decided on every run by the boolean abstraction C09.5 (no slice hash: the model, not a frozen body, carries the argument)', 'C09.5')
+a(r'SymbolFile>::parse_async::\{closure#0\}\|loop', 'same state machine as parse (C10.3 twin rule); chunks come from the HTTP response stream. Decided on every run by the boolean abstraction C09.5', 'C09.5')
 a(r'SymbolFile>::fill_symbol\|loop', 'for depth in 1..: leaves the loop as soon as get_inlinee_at_depth(depth, addr) is None; every depth that continues is witnessed by a distinct INLINE record of that depth, so iterations <= number of inlinee records + 1')
 a(r'SymbolFile>::walk_frame::\{closure#0\}\|loop', 'while count < len: count += 1 on every iteration')
 a(r'minidump_stackwalk::main_result::\{closure#0\}::\{closure#3\}::\{closure#0\}\|loop', 'intentionally endless UI-refresh future (`update_state`): every iteration awaits a 500 ms sleep; it is raced by tokio::select! against process_minidump_with_options and dropped when that completes (the other select arm is unreachable!())', 'C20.select')
@@ -59,9 +61,10 @@ def main():
                     e = {'key': k, 'variant': hit[0], 'where': '%s:%d' % (f.file, lp.line)}
                     if hit[1]:
                         e['backing'] = hit[1]
-                    dg, hs = slices.digest(slices.loop_items(f, prog.crate(cn), sorted(lp.body)))
-                    e['slices'] = [dg]
-                    e['slice_items'] = hs
+                    if hit[1] not in DECIDED_BY_MODEL:
+                        dg, hs = slices.digest(slices.loop_items(f, prog.crate(cn), sorted(lp.body)))
+                        e['slices'] = [dg]
+                        e['slice_items'] = hs
                     out.append(e)
     with open(os.path.join(HERE, 'loop_table.json'), 'w') as fh:
         json.dump({'entries': out}, fh, indent=0)
